@@ -188,7 +188,7 @@ search_page_fwd(cache_page *vtp, vbi_bool wrapped, void *p)
 	int row, _this, start, stop;
 	ucs2_t *hp, *first;
 	unsigned long ms, me;
-	int flags, i, j;
+	int flags, first_flags, i, j;
 
 	_this = (vtp->pgno << 16) + vtp->subno;
 	start = (s->start_pgno << 16) + s->start_subno;
@@ -225,6 +225,7 @@ search_page_fwd(cache_page *vtp, vbi_bool wrapped, void *p)
 	first = hp;
 	row = (_this == start) ? s->row[0] : -1;
 	flags = 0;
+	first_flags = 0;
 
 	if (row > LAST_ROW)
 		return 0; /* try next page */
@@ -233,8 +234,12 @@ search_page_fwd(cache_page *vtp, vbi_bool wrapped, void *p)
 		acp = &s->pg.text[i * s->pg.columns];
 
 		for (j = 0; j < 40; acp++, j++) {
-			if (i == row && j <= s->col[0])
+			if (i == row && j <= s->col[0]) {
 				first = hp;
+				/* Not the beginning of a line when
+				   we continue within a row. */
+				first_flags = flags;
+			}
 
 			if (acp->size == VBI_DOUBLE_WIDTH
 			    || acp->size == VBI_DOUBLE_SIZE) {
@@ -268,7 +273,7 @@ fprintf(stderr, "exec: %x/%x; start %d,%d; %c%c%c...\n",
 	_vbi_to_ascii (first[2])
 );
 */
-	if (!ure_exec(s->ud, flags, first, hp - first, &ms, &me))
+	if (!ure_exec(s->ud, first_flags, first, hp - first, &ms, &me))
 		return 0; /* try next page */
 
 	highlight(s, vtp, first, ms, me);
